@@ -67,10 +67,8 @@ fn check_invariants(m: &Model, inst: &v1::Instance, step: usize, x: &mut Exec) {
         }
     }
     for r in &inst.removed_constraints {
-        let Some(c) = &r.constraint else {
-            x.violate("C14:conservation:constraint-changed", format!("step {step}: a removed entry lost its constraint"));
-            continue;
-        };
+        // entries that never had a constraint are not constraints; their number is checked by the caller
+        let Some(c) = &r.constraint else { continue };
         *seen.entry(c.id).or_insert(0) += 1;
         match m.catalogue.get(&c.id) {
             None => x.violate("C14:conservation:unknown-constraint", format!("step {step}: removed list contains constraint {} which the instance never had", c.id)),
@@ -114,7 +112,12 @@ impl Prop for C14 {
         }
     }
     fn gen(&self, rng: &mut Rng, _tier: Tier, _idx: u64) -> Case {
-        let inst = gen_instance(rng, &GenOpts { max_vars: 4, max_cons: 4, max_removed: 2, max_degree: 3, deps: true, hints: false });
+        let mut inst = gen_instance(rng, &GenOpts { max_vars: 4, max_cons: 4, max_removed: 2, max_degree: 3, deps: true, hints: false });
+        // a removed entry whose constraint is unset (wire-legal, accepted by validate()) somewhere in the list
+        if rng.chance(1, 10) {
+            let pos = rng.usize(inst.removed.len() + 1);
+            inst.removed.insert(pos, exact::RemovedSpec { constraint: None, reason: "orphan".into(), parameters: vec![] });
+        }
         let n = 1 + rng.usize(8);
         let mut ops = vec![];
         // track the expected lists so that IDs can be drawn from active, removed and unknown on purpose
@@ -168,8 +171,12 @@ impl Prop for C14 {
             m.catalogue.insert(c.id, c.clone());
             m.active.push(c.id);
         }
+        let unset_entries = inst.removed_constraints.iter().filter(|r| r.constraint.is_none()).count();
+        if unset_entries > 0 {
+            x.count("probe.removed_entry_without_constraint");
+        }
         for r in &inst.removed_constraints {
-            let c = r.constraint.as_ref().unwrap();
+            let Some(c) = r.constraint.as_ref() else { continue };
             m.catalogue.insert(c.id, c.clone());
             m.removed.insert(c.id, (r.removed_reason.clone(), r.removed_reason_parameters.iter().map(|(k, v)| (k.clone(), v.clone())).collect()));
         }
@@ -238,6 +245,10 @@ impl Prop for C14 {
                         }
                     }
                 }
+                Op::Evaluate { .. } if unset_entries > 0 => {
+                    // a removed entry without constraint cannot be evaluated; the outcome is not judged
+                    x.count("probe.evaluate_skipped_unset_entry");
+                }
                 Op::Evaluate { state } => {
                     let st = v1_state(state);
                     let r = x.sut(|| inst.evaluate(&st));
@@ -286,6 +297,9 @@ impl Prop for C14 {
                 }
             }
             check_invariants(&m, &inst, step, x);
+            if inst.removed_constraints.iter().filter(|r| r.constraint.is_none()).count() != unset_entries {
+                x.violate("C14:conservation:lost", format!("step {step}: the number of removed entries without constraint changed"));
+            }
             if !x.violations.is_empty() {
                 return;
             }
@@ -340,6 +354,6 @@ impl Prop for C14 {
         vec!["OS randomness (seeded: hash-map iteration order is a function of the seed)"]
     }
     fn required_probes(&self, _t: Tier) -> Vec<&'static str> {
-        vec!["probe.relax_ok", "probe.restore_ok", "probe.relax_refused_already_removed", "probe.relax_refused_unknown", "probe.restore_refused_active", "probe.restore_refused_unknown", "probe.evaluate", "probe.feasible_differs_from_relaxed"]
+        vec!["probe.relax_ok", "probe.restore_ok", "probe.relax_refused_already_removed", "probe.relax_refused_unknown", "probe.restore_refused_active", "probe.restore_refused_unknown", "probe.evaluate", "probe.feasible_differs_from_relaxed", "probe.removed_entry_without_constraint"]
     }
 }
